@@ -23,7 +23,7 @@ package filesystem
 // exportPemFile is the only writer of artifacts: it writes at most the artifact file of the alias, and what it
 // writes is the hash line followed by the certificate, key and request blocks that are present (C10, C13, C14).
 //@ func (*FsDb).exportPemFile returns (err)
-//@   props C10 C13 C14
+//@   props C10 C13 C14 C17
 //@   let CFG = old(deref(fsdb.configs[alias]))
 //@   let ART = old(deref(fsdb.artifacts[alias]))
 //@   let PATH = artNameOf(old(deref(fsdb.fsMetadata[alias]).configFileName))
@@ -35,7 +35,7 @@ package filesystem
 //@   ensures @C10 forall p string :: FsWrites(0)[p] ==> (old(FsWrites(0))[p] || p == PATH)
 //@   ensures @C10 forall p string :: p != PATH ==> FsContent(0)[p] == old(FsContent(0))[p]
 //@   ensures @C10,C14 err == nil ==> FsWrites(0)[PATH]
-//@   ensures @C10,C13,C14 err == nil ==> FsContent(0)[PATH] == bcat(bcat(bcat(strBytes(concat(concat("#HASH:", b64(digest(3, jsonBytes(deep(typed(blankV(CFG), "gopki/generator/config.CertificateContent")))))), "\n")), (if ART.Certificate != nil then pemCert(deep(old(deref(ART.Certificate)))) else #bempty)), (if ART.PrivateKey != nil then pemKey(ART.PrivateKey) else #bempty)), (if ART.Request != nil then pemReq(deep(old(deref(ART.Request)))) else #bempty))
+//@   ensures @C10,C13,C14,C17 err == nil ==> FsContent(0)[PATH] == bcat(bcat(bcat(strBytes(concat(concat("#HASH:", b64(digest(3, jsonBytes(deep(typed(blankV(CFG), "gopki/generator/config.CertificateContent")))))), "\n")), (if ART.Certificate != nil then pemCert(deep(old(deref(ART.Certificate)))) else #bempty)), (if ART.PrivateKey != nil then pemKey(ART.PrivateKey) else #bempty)), (if ART.Request != nil then pemReq(deep(old(deref(ART.Request)))) else #bempty))
 
 // PutBuildArtifact: unknown alias is an error without any write; otherwise the artifact is stored and exported, the
 // only file written is the alias's artifact file, and an export error is returned (C10, C14, C15's per-call clause).
@@ -193,3 +193,19 @@ package filesystem
 //@   ensures @C18,C20 typeis(res, "*gopki/generator/db/filesystem.FsDb") && F != nil && fresh(F) && F.configs != nil && F.artifacts != nil && F.fsMetadata != nil && F.profiles != nil && F.subscribersOf != nil
 //@   ensures @C18,C20 F.configs != F.artifacts && F.configs != F.fsMetadata && F.artifacts != F.fsMetadata && F.profiles != F.configs && F.profiles != F.artifacts && F.profiles != F.fsMetadata && F.subscribersOf != F.configs && F.subscribersOf != F.artifacts && F.subscribersOf != F.fsMetadata && F.subscribersOf != F.profiles
 //@   ensures @C18 len(F.rootAliases) == 0 && maplen(F.configs) == 0 && maplen(F.subscribersOf) == 0
+
+// PutConfig (the db.Database contract assumed of every backend, proved here for FsDb): replacing the configuration of a
+// known alias is an in-memory update that writes no file - this is what BulkUpdate does with the effective
+// configuration before generating (C10: configuration files are never modified); a new alias writes exactly
+// <alias>.yaml; an empty alias is refused without any effect on the file system.
+//@ func (*FsDb).PutConfig returns (err)
+//@   props C10 C20
+//@   requires MAPS
+//@   requires ENT
+//@   modifies HM_String_Int, HMD_String, HMLEN, FsWrites, FsContent
+//@   assigns fsdb.fsMetadata[alias].LastConfigUpdate
+//@   ensures @C10 alias != "" && old(has(fsdb.configs, alias)) ==> err == nil && FsWrites(0) == old(FsWrites(0)) && FsContent(0) == old(FsContent(0))
+//@   ensures @C10 alias == "" ==> err != nil && FsWrites(0) == old(FsWrites(0)) && FsContent(0) == old(FsContent(0))
+//@   ensures @C10 forall p string :: FsWrites(0)[p] ==> (old(FsWrites(0))[p] || p == concat(alias, ".yaml"))
+//@   ensures @C10 forall p string :: p != concat(alias, ".yaml") ==> FsContent(0)[p] == old(FsContent(0))[p]
+//@   ensures alias != "" ==> has(fsdb.configs, alias) && fsdb.configs[alias] != nil && deref(fsdb.configs[alias]) == cfg
